@@ -188,7 +188,8 @@ def runRawLzma2 (f : Fields) : String :=
             (d', false, acc ++ [s!"ok:{rd.rem.length - rd'.rem.length}:{outRepr snk.out.toList}"])
           | (snk, .error e) =>
             (d, true, acc ++ [s!"{verdictOf (Except.error e : Except Err Unit)}:-:{outRepr snk.out.toList}"])
-      | ["st"] => (d, dirty, acc ++ [if dirty then "unspec" else stReprOf [] d.lzmaState])
+      -- the expected-size field is masked (dead across chunks: `lzma2_ignores_stale_size`)
+      | ["st"] => (d, dirty, acc ++ [if dirty then "unspec" else stReprOf [] { d.lzmaState with unpackedSize := none }])
       | ["r"] =>
         match d.reset with
         | .ok d' => (d', false, acc ++ ["r"])
@@ -234,6 +235,11 @@ def runStream (f : Fields) : String :=
           stReprOf ([1, UInt8.ofNat st.tmp.length] ++ st.tmp ++ leBytes 4 rs.range ++ leBytes 4 rs.code ++
             leBytes 8 rs.output.len) rs.decoder
       (st, snk, acc ++ [r], false)
+    | ["go"] =>
+      -- `get_output` / `get_output_mut`: the sink is reachable unless the stream has failed
+      (st, snk, acc ++ [match st.state with
+        | none => "go:none"
+        | some _ => s!"go:{snk.out.size}"], false)
     | ["fin"] =>
       match st.finish snk with
       | (snk', r) => (st, snk', acc ++ [s!"fin{verdictOf r}"], true)
